@@ -14,14 +14,33 @@ Proved here, for ALL patterns / forms / programs (induction, no bounds):
   * `not_hygiene`     : the full statement `Hygiene` is false for M — witnesses = D8's programs, by `decide`;
                         one witness per conjunct of the guard that can be violated (`G.a`, `G.b`, `G.c`, `G.d`)
   * `match_exact_needs_nested_guard/_clean` : the guards of `match_exact` are necessary (witnesses by `decide`)
-NOT proved: `hygiene_partial : G prog → expandM prog ≈α expandS prog`.  The statement is kept (`HygienePartial`);
-what is missing is a simulation between M's `##`-prefix renaming and S's stamps through nested expansions
-(every `##x` occurrence of one template instance stays in the scope of that instance's binder) and the
-agreement of M's matcher/instantiator with the R7RS one on arbitrary templates (only the pattern-as-template
-case is proved, `match_exact`).  Inside `G` the property is checked by the differential run only.
+Positive hygiene (section "Hygiene, positive part"; induction over the model's own functions, no bounds):
+  * `reader_rejects_double_hash` : on the lexer model of C12 a token beginning with `##` is a lexical error — source
+                        identifiers never carry the mangling prefix (hypothesis `noHashList` of the theorems below)
+  * `introduced_binders_fresh` : every binder position of a stored template is spelled `##…`, hence distinct from
+                        every identifier of a macro use
+  * `expansion_names`  : one expansion step (collect / mark / instantiate, any ellipsis depth) only produces
+                        identifiers of the use's arguments, non-binder atoms of the stored template, or `##`-names
+  * `user_forms_not_captured`, `user_form_meaning_unchanged` : the resolution of a user identifier, and the whole
+                        canonical form of a user sub-form, do not depend on the `##`-binders in scope
+  * `hygiene_user_binders`, `hygiene_user_binders_src` : the name invariant for WHOLE programs (nested uses,
+                        recursion, fixed point), no guard: template binders are never spelled like user identifiers
+  * `template_free_ids_resolve_globally` : under `G.a` a template's free identifier is instantiated unchanged, still
+                        flagged `unresolved`, and resolves to the definition-site global
+  * `G_iff`            : `G` = conjunction of the six negated class predicates (K13a, b, c, d, f, g)
+STILL NOT proved: `hygiene_partial : G prog → expandM prog ≈α expandS prog` (statement kept: `HygienePartial`).
+Missing for it: (1) agreement of M's matcher/instantiator with the R7RS one (`specMatch`/`specInst`) on arbitrary
+templates (only the pattern-as-template case is proved, `match_exact`); (2) the simulation between the `##`-names
+of SEVERAL template instances and S's per-step stamps under `G.b` (one `##x` per spelling vs one stamp per step);
+(3) the scoping argument that under `G.d` every `##x` occurrence lies in the scope of its instance's binder.
+What the theorems above give towards it: user identifiers vs template binders (all programs), template free
+identifiers vs use-site binders (one step, under `G.a`).  Inside `G` the full statement is checked by the
+differential run (any real ≠ S there is a VIOLATION).
 -/
 import SteelVerif.C13.LemmasComplete
 import SteelVerif.C13.LemmasFuel
+import SteelVerif.C13.LemmasHygiene7
+import SteelVerif.C12.Lex
 namespace SteelVerif.C13
 set_option linter.unusedSimpArgs false
 set_option linter.unusedVariables false
@@ -319,5 +338,227 @@ def insideG : Prog :=
 
 /-- The guard is satisfiable and inside it M and S agree on a program that needs the renaming. -/
 example : G 40 insideG = true ∧ hygienicAt 40 insideG = true := by decide +kernel
+
+
+/-! ## Hygiene, positive part (one expansion step; resolution of identifiers)
+
+The mangling prefix: steel's definition-time renaming (`RenameIdentifiersVisitor`) spells every binder a template
+introduces `##<spelling>` (`Name.hashes` counts the leading `##`).  The reader cannot produce an identifier that
+begins with `##` (`reader_rejects_double_hash`, on the lexer model of C12; the real reader answers `err Parse`
+for `(define ##x 1)`), so for forms that come from source text the hypothesis `noHashList args` below holds. -/
+
+/-- The lexer model of C12 (`lexOne` follows `crates/steel-parser/src/lexer.rs`): a token that begins with `##`
+is a lexical error, whatever follows. -/
+theorem reader_rejects_double_hash (pos : Nat) (cs : List Char) :
+    (SteelVerif.C12.lexOne pos '#' ('#' :: cs)).res = .error (.unexpectedChar '#') := by
+  simp [SteelVerif.C12.lexOne]
+
+/-- The guard `G` is the conjunction of the six negated class predicates (K13a, b, c, d, f, g). -/
+theorem G_iff (fuel : Nat) (p : Prog) : G fuel p = true ↔ (classify fuel p).inG := by
+  simp only [G, Flags.none, Flags.inG, Flags.Ga, Flags.Gb, Flags.Gc, Flags.Gd, Flags.Gf, Flags.Gg]
+  cases (classify fuel p).a <;> cases (classify fuel p).b <;> cases (classify fuel p).c <;>
+    cases (classify fuel p).d <;> cases (classify fuel p).f <;> cases (classify fuel p).g <;> simp
+
+/-- `introduced_binders_fresh` (binder hygiene, definition side): for every case compiled from a template as the
+reader produces it, every binder position of the stored template (`define` / `lambda` parameters, `let` and named
+`let` binders — the atoms flagged `introduced_via_macro`) is spelled with the `##` prefix; hence it is distinct
+from every identifier of any macro use whose identifiers do not begin with `##`. -/
+theorem introduced_binders_fresh (name : Name) (lits : List Name) (pattern body : Sexp) (cs : MacroCase)
+    (hc : compileCase name lits pattern body = .ok cs) (hsrc : srcForm body)
+    (args : List Sexp) (hargs : noHashList args) :
+    ∀ b ∈ binderAtoms cs.body, 1 ≤ b.hashes ∧ b ∉ Sexp.idsList args := by
+  intro b hb
+  obtain ⟨m, hm, hi⟩ := binderAtoms_mem cs.body b hb
+  have h1 : 1 ≤ b.hashes := (compileCase_stored name lits pattern body cs hc hsrc (b, m) hm).1 hi
+  exact ⟨h1, fun hmem => by have := hargs b hmem; omega⟩
+
+/-- `expansion_names` (binder hygiene, use side): one expansion step (`MacroCase::expand` = `collect_bindings`,
+`IntroducedByMacro`, `replace_identifiers`, any ellipsis depth) only produces identifiers that (i) occur in the
+arguments of the use, or (ii) are atoms of the stored template that are not binders, or (iii) carry the `##`
+prefix.  So an identifier of the expansion spelled like a user identifier is the user's or a free identifier /
+literal of the template — never a binder the template introduced. -/
+theorem expansion_names (name : Name) (lits : List Name) (pattern body : Sexp) (cs : MacroCase)
+    (hc : compileCase name lits pattern body = .ok cs) (hsrc : srcForm body)
+    (c : ICtx) (args : List Sexp) (imp : Bool) (r : Sexp) (h : expandCase c cs args imp = .ok r) :
+    ∀ n ∈ r.ids, n ∈ Sexp.idsList (args.drop 1) ∨
+      (∃ m, (n, m) ∈ cs.body.atoms ∧ m.intro = false ∧ n.hashes = 0) ∨ 1 ≤ n.hashes := by
+  intro n hn
+  rcases expandCase_names c cs args imp r h n hn with h1 | h2 | h3
+  · exact Or.inl h1
+  · by_cases h0 : n.hashes = 0
+    · rw [ids_eq_atoms] at h2
+      obtain ⟨a, ha, rfl⟩ := List.mem_map.1 h2
+      have hst := compileCase_stored name lits pattern body cs hc hsrc a ha
+      refine Or.inr (Or.inl ⟨a.2, ha, ?_, h0⟩)
+      cases hi : a.2.intro with
+      | false => rfl
+      | true => have := hst.1 hi; omega
+    · exact Or.inr (Or.inr (by omega))
+  · exact Or.inr (Or.inr h3)
+
+/-- `user_forms_not_captured`: in ANY resolution environment (the binders in scope where a sub-form of the
+expansion sits, `canonRef` = steel's resolution after expansion), an identifier `k` of the macro's input resolves
+exactly as it does in the environment without the `##`-binders, and no binder the template introduced is among
+the remaining ones: the free variables of the user's sub-forms stay free in the expansion, and their bound
+variables stay bound by the user's own binders. -/
+theorem user_forms_not_captured (name : Name) (lits : List Name) (pattern body : Sexp) (cs : MacroCase)
+    (hc : compileCase name lits pattern body = .ok cs) (hsrc : srcForm body)
+    (args : List Sexp) (hargs : noHashList args)
+    (genv : List (Name × Nat)) (env : List CEntry) (k : Name) (m : Mark) (hk : k ∈ Sexp.idsList args) :
+    (∀ e ∈ userEntries env, e.name ∉ binderAtoms cs.body) ∧
+      canonRef genv env k m = canonRef genv (userEntries env) k m := by
+  refine ⟨fun e he hb => ?_, canonRef_userEntries genv env k m (hargs k hk)⟩
+  have h1 := (introduced_binders_fresh name lits pattern body cs hc hsrc args hargs e.name hb).1
+  simp only [userEntries, List.mem_filter, beq_iff_eq] at he
+  omega
+
+/-- `template_free_ids_resolve_globally` (referential transparency under the conjunct `G.a`): a free identifier
+`x` of the template (an atom of the stored template flagged `unresolved`) that no binder in scope at the use is
+spelled like (`x ∉ c.scope`) comes out of the instantiation unchanged and still flagged, and in every
+resolution environment in which each binder spelled `x` is a plain use-site binder and the flag survives
+(`flagLost` = the spelling `list`, finding K13a) — in particular when there is no binder spelled `x` — it
+resolves to the definition-site global.  Outside the guard: `not_hygiene_a`. -/
+theorem template_free_ids_resolve_globally (name : Name) (lits : List Name) (pattern body : Sexp) (cs : MacroCase)
+    (hc : compileCase name lits pattern body = .ok cs) (hsrc : srcForm body)
+    (args : List Sexp) (imp : Bool) (env : Env) (hcol : collect (cs.pats.drop 1) (args.drop 1) imp = .ok env)
+    (x : Name) (hx : x ∈ unresIds cs.body) (c : ICtx) (hsc : x ∉ c.scope) :
+    ∃ m, (x, m) ∈ cs.body.atoms ∧ m.unres = true ∧ substAtom c (markEnv env) x m = .id x m ∧
+      ∀ (genv : List (Name × Nat)) (cenv : List CEntry),
+        (∀ e ∈ cenv, e.name = x → e.intro = false ∧ flagLost x = false) →
+        canonRef genv cenv x m = globalRef genv x := by
+  obtain ⟨m, hm, hu, hi⟩ := unresIds_mem cs.body x hx
+  have h0 : x.hashes = 0 := ((compileCase_stored name lits pattern body cs hc hsrc (x, m) hm).2 hu).1
+  refine ⟨m, hm, hu, ?_, fun genv cenv h => canonRef_global genv cenv x m hu h⟩
+  apply substAtom_free c (markEnv env) x m hsc
+  intro hw
+  rw [markEnv_get]
+  obtain ⟨ps, hps⟩ := compileCase_pats name lits pattern body cs hc
+  have : x ∉ Pat.varsList (cs.pats.drop 1) := by
+    intro hmem
+    have := varsList_drop_one cs.pats x hmem
+    rw [hps] at this
+    rcases mangleList_vars ps x this with h1 | h1
+    · exact hw h1
+    · omega
+  rw [collect_keys _ _ imp env hcol x this]
+  rfl
+
+/-- `user_form_meaning_unchanged` (whole-form version of `user_forms_not_captured`): the canonical form of a
+form whose identifiers do not begin with `##` — binders renamed to their nesting level, every reference resolved
+as steel resolves it after expansion — is the same in an environment and in that environment without its
+`##`-binders, at any depth and for any fuel.  Wherever an expansion puts a user's sub-form, the binders
+introduced by templates (all spelled `##…`, `introduced_binders_fresh`) do not change what it means. -/
+theorem user_form_meaning_unchanged (genv : List (Name × Nat)) (f : Nat) (env : List CEntry) (lvl : Nat) (a : Sexp)
+    (ha : noHash a) : canon genv f env lvl a = canon genv f (userEntries env) lvl a :=
+  (canon_user genv f).1 env lvl a ha
+
+/-- `hygiene_user_binders` (binder hygiene towards user identifiers for WHOLE programs — nested uses, recursive
+macros, expansion to fixed point, any fuel; no guard): every identifier of the expanded program is an identifier
+of the program's own forms, an identifier of a stored template, or carries the `##` prefix.  Together with
+`introduced_binders_fresh` (the binders of stored templates carry `##`): at no nesting depth does a binder
+introduced by a template have the spelling of an identifier the user wrote.  What is NOT covered (and is
+false, `not_hygiene_b`): two template instances exchanging `##`-names among themselves. -/
+theorem hygiene_user_binders (fuel : Nat) (p : Prog) (out : List Sexp) (fl : Flags)
+    (h : expandM fuel p = .ok (out, fl)) :
+    ∃ ms, compileAll (p.forms.filter isDefineSyntax) = .ok ms ∧
+      ∀ n ∈ Sexp.idsList out, n ∈ Sexp.idsList (p.forms.filter (fun x => !isDefineSyntax x)) ∨
+        (∃ mac ∈ ms, ∃ cs ∈ mac.cases, n ∈ cs.body.ids) ∨ 1 ≤ n.hashes := by
+  simp only [expandM] at h
+  cases hc : compileAll (p.forms.filter isDefineSyntax) with
+  | error e => simp [hc] at h
+  | ok ms =>
+      simp only [hc] at h
+      refine ⟨ms, rfl, ?_⟩
+      let Q : Name → Prop := fun n => n ∈ Sexp.idsList (p.forms.filter (fun x => !isDefineSyntax x)) ∨
+        (∃ mac ∈ ms, ∃ cs ∈ mac.cases, n ∈ cs.body.ids) ∨ 1 ≤ n.hashes
+      have I : NameInv Q { macros := ms, globals := p.globals } :=
+        { hashed := fun n hn => Or.inr (Or.inr hn),
+          bodies := fun mac hmac cs hcs n hn => Or.inr (Or.inl ⟨mac, hmac, cs, hcs, hn⟩) }
+      exact runMForms_names I fuel _ _ h (fun n hn => Or.inl hn)
+
+/-- `hygiene_user_binders_src`: for a program as the reader produces it (plain identifiers, none beginning with
+`##`), every identifier of the fully expanded program that does not begin with `##` is an identifier the user
+wrote in a non-`define-syntax` form, or an atom of a stored template that is NOT a binder (it is not flagged
+`introduced_via_macro`; it is a free identifier, a literal or quoted data of the template).  So, at every nesting
+depth of every expansion, a binder introduced by a template is never spelled like an identifier of the user's
+forms — the user's identifiers are never captured by template binders (no guard needed for this direction). -/
+theorem hygiene_user_binders_src (fuel : Nat) (p : Prog) (out : List Sexp) (fl : Flags)
+    (hsrc : ∀ x ∈ p.forms, srcForm x) (h : expandM fuel p = .ok (out, fl)) :
+    ∃ ms, compileAll (p.forms.filter isDefineSyntax) = .ok ms ∧
+      (∀ mac ∈ ms, ∀ cs ∈ mac.cases, ∀ b ∈ binderAtoms cs.body, 1 ≤ b.hashes) ∧
+      ∀ n ∈ Sexp.idsList out, n.hashes = 0 →
+        n ∈ Sexp.idsList (p.forms.filter (fun x => !isDefineSyntax x)) ∨
+        (∃ mac ∈ ms, ∃ cs ∈ mac.cases, ∃ m, (n, m) ∈ cs.body.atoms ∧ m.intro = false) := by
+  obtain ⟨ms, hms, hn⟩ := hygiene_user_binders fuel p out fl h
+  have hst := compileAll_stored _ ms hms (fun x hx => hsrc x (List.mem_filter.1 hx).1)
+  refine ⟨ms, hms, ?_, ?_⟩
+  · intro mac hmac cs hcs b hb
+    obtain ⟨m, hm, hi⟩ := binderAtoms_mem cs.body b hb
+    exact (hst mac hmac cs hcs (b, m) hm).1 hi
+  · intro n hnmem h0
+    rcases hn n hnmem with h1 | ⟨mac, hmac, cs, hcs, h2⟩ | h3
+    · exact Or.inl h1
+    · rw [ids_eq_atoms] at h2
+      obtain ⟨a, ha, rfl⟩ := List.mem_map.1 h2
+      refine Or.inr ⟨mac, hmac, cs, hcs, a.2, ha, ?_⟩
+      cases hi : a.2.intro with
+      | false => rfl
+      | true => have := (hst mac hmac cs hcs a ha).1 hi; omega
+    · omega
+
+/-! ### Non-vacuity of the positive theorems -/
+
+/-- the case of `or2`: pattern `(_ a b)`, template `(let ((tmp a)) (if tmp tmp b))` -/
+def or2Pattern : Sexp := lst [sx "_", sx "a", sx "b"]
+def or2Body : Sexp := lst [.kw .let_, lst [lst [sx "tmp", sx "a"]], lst [.kw .if_, sx "tmp", sx "tmp", sx "b"]]
+/-- `(or2 #f tmp)` — the user's variable is spelled like the template's temporary -/
+def or2Use : List Sexp := [sx "or2", .bool false, sx "tmp"]
+
+example : srcForm or2Body ∧ noHashList or2Use := by decide
+
+/-- the stored template is `(let ((##tmp ##a)) (if ##tmp ##tmp ##b))`, its only binder is `##tmp` -/
+example : (match compileCase (nm "or2") [] or2Pattern or2Body with
+    | .ok cs => binderAtoms cs.body == [(nm "tmp").hash]
+    | .error _ => false) = true := by decide
+
+/-- the expansion of `(or2 #f tmp)` is `(let ((##tmp #f)) (if ##tmp ##tmp tmp))`: the user's `tmp` is not the
+template's -/
+example : (match compileCase (nm "or2") [] or2Pattern or2Body with
+    | .ok cs =>
+        (match expandCase {} cs or2Use false with
+         | .ok r => Sexp.sameText r
+             (lst [.kw .let_, lst [lst [.id (nm "tmp").hash .plain, .bool false]],
+                   lst [.kw .if_, .id (nm "tmp").hash .plain, .id (nm "tmp").hash .plain, sx "tmp"]])
+         | .error _ => false)
+    | .error _ => false) = true := by decide
+
+/-- `uses-list`: template `(list a a)`; `list` is a free identifier of the stored template -/
+example : (match compileCase (nm "uses-list") [] (lst [sx "_", sx "a"]) (lst [sx "list", sx "a", sx "a"]) with
+    | .ok cs => unresIds cs.body == [nm "list"]
+    | .error _ => false) = true := by decide
+
+/-- nested uses inside `G`: `(let ((tmp 5)) (or2 #f (or2 #f tmp)))` and a recursive `my-or` with a user variable
+spelled like the temporary -/
+def insideGNested : Prog :=
+  { globals := [nm "list"],
+    forms := [defOr2,
+      defSyntax "my-or" [] [(lst [sx "_"], .bool false), (lst [sx "_", sx "e"], sx "e"),
+        (lst [sx "_", sx "e", sx "r", Sexp.ell],
+          lst [.kw .let_, lst [lst [sx "t", sx "e"]], lst [.kw .if_, sx "t", sx "t", lst [sx "my-or", sx "r", Sexp.ell]]])],
+      lst [.kw .let_, lst [lst [sx "tmp", .int 5], lst [sx "t", .int 6]],
+        lst [sx "or2", .bool false, lst [sx "or2", .bool false, sx "tmp"]],
+        lst [sx "my-or", .bool false, .bool false, sx "t"]]] }
+
+example : G 60 insideGNested = true ∧ hygienicAt 60 insideGNested = true := by decide +kernel
+
+/-- `hygiene_user_binders` is about a successful expansion: this one (nested + recursive uses) succeeds -/
+example : (match expandM 60 insideGNested with | .ok _ => true | .error _ => false) = true := by decide +kernel
+
+/-- the hypothesis of `hygiene_user_binders_src` holds for that program -/
+example : ∀ x ∈ insideGNested.forms, srcForm x := by decide
+
+/-- `user_form_meaning_unchanged`: `(lambda (tmp) tmp)` placed under the template binder `##tmp` -/
+example : noHash (lst [.kw .lambda, lst [sx "tmp"], sx "tmp"]) ∧
+    userEntries [{ name := (nm "tmp").hash, lvl := 0, intro := true }] = [] := by decide
 
 end SteelVerif.C13
